@@ -129,6 +129,8 @@ type Record struct {
 	Released *InvRef           `json:"released,omitempty"`
 	Pending  map[string]int    `json:"pending,omitempty"`
 	N        int               `json:"n,omitempty"`
+	// LateStamp: hook_start written after the occurrence that launched the call had ended (K corrected)
+	LateStamp bool `json:"late_stamp,omitempty"`
 }
 
 // ---------------------------------------------------------------- the lab
@@ -366,8 +368,23 @@ func (l *Lab) hookBegin(name string, r Record) (inv int, beh Behaviour, g chan s
 	r.HookKind = hs.spec.Kind
 	r.Gated = gated
 	l.addLocked(r)
+	// A call writes this record from its own goroutine, possibly long after the FSM
+	// goroutine launched it. The lab waits after every occurrence until all launched
+	// calls have got here (settle), but should one still arrive after the next
+	// occurrence has begun, it belongs to the nearest earlier occurrence that has
+	// its trigger moment, not to the current one.
+	if hs.spec.Kind == Call && l.cur.MomentIndex(hs.tname) < 0 {
+		for i := len(l.occs) - 2; i >= 0; i-- {
+			if l.occs[i].MomentIndex(hs.tname) >= 0 {
+				rec := &l.recs[len(l.recs)-1]
+				rec.K = l.occs[i].K
+				rec.LateStamp = true
+				break
+			}
+		}
+	}
 	if gated {
-		gt := &gate{ref: InvRef{name, inv}, k: l.k, ch: make(chan struct{}), open: true, hs: hs}
+		gt := &gate{ref: InvRef{name, inv}, k: l.recs[len(l.recs)-1].K, ch: make(chan struct{}), open: true, hs: hs}
 		l.gates = append(l.gates, gt)
 		g = gt.ch
 	}
@@ -779,6 +796,7 @@ func (w *World) leakBaseAdd(n int) {
 func (l *Lab) control(done chan error, stale map[int]bool) error {
 	start := time.Now()
 	lastN := -1
+	quietStreak := 0
 	for {
 		select {
 		case err := <-done:
@@ -793,7 +811,13 @@ func (l *Lab) control(done chan error, stale map[int]bool) error {
 		lastN = n
 		busy := l.busy
 		l.mu.Unlock()
-		if found && blocked && stable && busy == 0 && callsUnsettled(gs) == 0 && !repoBusy(gs) {
+		quiet := found && blocked && stable && busy == 0 && callsUnsettled(gs) == 0 && !repoBusy(gs)
+		if quiet {
+			quietStreak++
+		} else {
+			quietStreak = 0
+		}
+		if quiet && quietStreak >= 2 { // two consecutive quiet snapshots
 			l.mu.Lock()
 			var best *gate
 			var bestPos Pos
@@ -819,6 +843,7 @@ func (l *Lab) control(done chan error, stale map[int]bool) error {
 				l.gatedSeen++
 				l.release(best)
 				lastN = -1
+				quietStreak = 0
 			}
 			l.mu.Unlock()
 		}
@@ -857,13 +882,19 @@ func (l *Lab) afterOccurrence() {
 
 func (l *Lab) settle() {
 	deadline := time.Now().Add(l.Watchdog)
+	clean := 0
 	for {
 		gs := Goroutines()
 		l.mu.Lock()
 		d := l.busy
 		l.mu.Unlock()
-		if d == 0 && callsUnsettled(gs) == 0 {
-			return
+		if d == 0 && callsUnsettled(gs) == 0 && !repoBusy(gs) {
+			clean++
+			if clean >= 2 { // two consecutive clean snapshots
+				return
+			}
+		} else {
+			clean = 0
 		}
 		if time.Now().After(deadline) {
 			l.anomaly("watchdog: hooks did not settle")
